@@ -19,7 +19,7 @@ impl Family {
     pub fn maxlen(&self, thorough: bool) -> u32 {
         // quick bound per family; thorough = one item longer where the alphabet is small (<= 9 items)
         let quick: u32 = match self.name {
-            "frozen-constant-body" | "symbol-named-like-a-parameter" | "subrule-operand" => 4,
+            "frozen-constant-body" | "symbol-named-like-a-parameter" | "subrule-operand" | "constant-size-flips-with-a-label" => 4,
             "late-flipping-boolean-constant" => 5,
             _ => 3,
         };
@@ -171,6 +171,21 @@ pub fn families() -> Vec<Family> {
                 Item::Instr("ld B".into()),
                 Item::Label("A".into()),
                 Item::Label("B".into()),
+                Item::Instr("nop".into()),
+            ],
+        },
+        Family {
+            // a constant whose VALUE stays the same while its SIZE flips with a late-settling label: the instruction that
+            // concatenates it changes length although "nothing changed" numerically
+            name: "constant-size-flips-with-a-label",
+            rules: vec![RuleSrc::new("ld {v}", "0x10 @ v"), RuleSrc::new("nop", "0x00")],
+            items: vec![
+                Item::Instr("ld x".into()),
+                Item::Instr("ld y".into()),
+                Item::Const("x".into(), "flag ? 0x05`8 : 0x05`16".into()),
+                Item::Const("y".into(), "x".into()),
+                Item::Const("flag".into(), "L >= 2".into()),
+                Item::Label("L".into()),
                 Item::Instr("nop".into()),
             ],
         },
@@ -442,7 +457,7 @@ pub fn quick_budgets() -> Vec<usize> {
 pub fn run(ctx: &Ctx) -> Report {
     let mut rep = Report::new(
         "model_checking",
-        "twelve rule families with value-dependent encodings (assert cascades with 2 and 3 sizes, typed-width cascade, pc-relative, far-is-short with no/oscillating fixed points, tie next to a cascade) x all item sequences up to a length over 15 items x iteration budgets x the 4 optimisation-switch combinations, plus the skeleton grid (forward chains of length 0..12, with and without an oscillator) x budgets 1..30 x 4; every claimed success is re-derived from its own final symbol values and instruction sizes (certificate). Non-trivial = program that needed >= 2 passes under some configuration; distinct by program text. states = distinct (program, per-pass state digest) pairs read through hook H2, transitions = resolver passes executed.",
+        "fourteen rule families with value-dependent encodings (assert cascades with 2 and 3 sizes, typed-width cascade, pc-relative, far-is-short with no/oscillating fixed points, tie next to a cascade) x all item sequences up to a length over 15 items x iteration budgets x the 4 optimisation-switch combinations, plus the skeleton grid (forward chains of length 0..12, with and without an oscillator) x budgets 1..30 x 4; every claimed success is re-derived from its own final symbol values and instruction sizes (certificate). Non-trivial = program that needed >= 2 passes under some configuration; distinct by program text. states = distinct (program, per-pass state digest) pairs read through hook H2, transitions = resolver passes executed.",
     );
     let fams = families();
     // sequence families: budgets around the pass counts that occur (1..6), the default and its neighbour, and a large
